@@ -17,6 +17,9 @@ for p in props:
         na.append({"property_id": pid, "reason": NA_REASONS.get(pid, "not claimed yet: the model, theorems and correspondence check for this property are still being built (see DESIGN.md §3 for the plan)")})
         continue
     m = importlib.import_module("props." + pid.lower())
+    if not getattr(m, "READY", False):
+        na.append({"property_id": pid, "reason": NA_REASONS.get(pid, "not claimed yet: the check for this property is under construction (see DESIGN.md §3 for the plan)")})
+        continue
     M = m.META
     checks.append({
         "property_id": pid,
